@@ -1,6 +1,6 @@
 module harness
 
-go 1.18
+go 1.21
 
 require (
 	github.com/pip-services3-gox/pip-services3-commons-gox v1.0.8
